@@ -67,6 +67,10 @@ def mesh_specs(draw, ndims=None, min_levels=1, max_levels=3, max_cells=6000,
                   nfiles=1 if lcls == "single" else draw(st.integers(2 if lcls == "scatter" else 1, 4)))
     ms = dict(ndims=nd, bf=bf, m=m, nb0=nb0, nlev=nlev, rects=rects, no_unit=no_unit,
               chop_seed=chop_seed, order_seed=order_seed, layout=layout)
+    if nlev >= 2 and draw(st.integers(0, 2 ** 16)) % 10 == 0:
+        # every level refines the whole level below it (all coarser cells are covered); kept small
+        ms.update(full=True, bf=2, nb0=[min(n, 2) for n in nb0], nlev=min(nlev, 3))
+        ms["rects"] = ms["rects"][:ms["nlev"] - 1]
     if thin:
         # level-0 boxes one cell thick (legal with blocking factor 1; finer levels stay coarsenable): a quarter of the meshes
         ms["thin0"] = [0, 0, 0, 0, 0, 0, 1, 2][draw(st.integers(0, 2 ** 16)) % 8] and draw(st.integers(1, 2 ** 16))
@@ -189,6 +193,8 @@ def build_mesh(ms):
                         sel.add(c)
             if not sel:
                 sel = {min(children)}
+            if ms.get("full"):
+                sel = children
             region = sel
         rng = random.Random(ms["chop_seed"] * 7 + l) if ms["chop_seed"] else None
         todo = set(region)
@@ -433,6 +439,8 @@ class Plot:
                 break
         if len(set(self.n0)) > 1:
             lab.append("non-cubic")
+        if self.spec["mesh"].get("full"):
+            lab.append("fully-refined-levels")
         if self.nf > 12:
             lab.append("many-fields(>12)")
         if self.payload.get("zero_boxes"):
